@@ -78,8 +78,31 @@ def r18_1(ctx: Ctx) -> None:
     for up in (True, False):
         # integer order cases plus two just either side of the limit (a comparison on rounded / truncated values shows here)
         for load, size, bw in ((1, 1, 3), (1, 2, 3), (2, 2, 3), (2.996, 0.008, 3), (2.5, 0.496, 3)):
-            ev = Evaluator({"self.is_up": up, "self.current_load": load, "frame.size_Mbits": size, "self.bandwidth": bw}, LocalDefs(ct.node))
+            base = {"self.is_up": up, "self.current_load": load, "frame.size_Mbits": size, "self.bandwidth": bw}
+            ev = Evaluator(base, LocalDefs(ct.node))
             out, node, tr = walk(g, ev)
+            # a condition over something else (the kind of frame, the sender ...) is a free atom: the admission must be the same
+            # for both of its values - a branch that admits or refuses by it is an exemption from the bandwidth test
+            free: List[str] = []
+            while out == "unknown" and len(free) < 3:
+                free.append(unparse(node.ast))
+                verdicts = []
+                for combo in itertools.product((True, False), repeat=len(free)):
+                    ev2 = Evaluator({**base, **dict(zip(free, combo))}, LocalDefs(ct.node))
+                    o2, n2, _ = walk(g, ev2)
+                    if o2 == "unknown":
+                        out, node = o2, n2
+                        break
+                    v2 = ev2.ev(n2.ast.value) if o2 == "return" and n2.ast.value is not None else None
+                    verdicts.append((combo, v2))
+                else:
+                    want_ = up and (load + size <= bw)
+                    for combo, v2 in verdicts:
+                        if v2 is UNKNOWN or bool(v2) != want_:
+                            bad.append(f"up={up} load={load} size={size} bandwidth={bw} with {dict(zip(free, combo))}: {v2} (want {want_})")
+                    out = "free"
+            if out == "free":
+                continue
             if out == "unknown":
                 raise AnalysisError(f"R18.1: cannot evaluate {unparse(node.ast)[:60]} in Link.can_transmit_frame")
             val = ev.ev(node.ast.value) if out == "return" else None
